@@ -317,7 +317,7 @@ def shrink(cexe, mexe, case, budget=200):
     def differs(c):
         a = run_driver(cexe, ['0 ' + c], True).get('0', 'MISSING')
         b = run_driver(mexe, ['0 ' + c], False).get('0', 'MISSING')
-        return a != b and 'unknown-op' not in b and 'skip' not in b.split(' ')[:1], a, b
+        return (a != b and 'unknown-op' not in b and b.split(' ')[0] != 'skip'), a, b
     toks = case.split(' ')
     best = toks; tries = 0
     changed = True
